@@ -93,6 +93,7 @@ def run(repo, rep, tier):
     # TypeError on valid MOF: every value-carrying symbol of every
     # alternative is read by the action
     from .c08 import _r8_symbols_consumed
+    namespace_caches_are_set_up_together(repo, rep)
     from .c12 import compiler_names_the_namespace
     compiler_names_the_namespace(repo, rep, 'C09.R15')
     _r8_symbols_consumed(repo, rep, 'C09.R14', exempt={
@@ -1000,3 +1001,48 @@ def _r12_lexer_terminates(repo, rep):
     if r12.sites < 9:
         raise AnalysisError('C09.R12: only %d constant lexer patterns'
                             % r12.sites)
+
+
+def namespace_caches_are_set_up_together(repo, rep):
+    """C09.R16: the compiler keeps two caches per target namespace,
+    parser.qualcache[ns] and parser.classnames[ns]; the grammar actions
+    read both with a plain subscript (`cln in p.parser.classnames[ns]`).
+    Every place that makes a namespace the target sets up the entry of
+    both: where one is initialised and the other is not (the `#pragma
+    namespace` action), the first class compiled into that namespace whose
+    creation needs the dependency recovery raises KeyError - not a
+    MOFCompileError.  Deviant-sibling rule over the initialisation sites."""
+    r = rep.rule('C09.R16', 'the per-namespace caches of the compiler are '
+                 'initialised together')
+    MOF = 'pywbem/_mof_compiler.py'
+    CACHES = ('qualcache', 'classnames')
+    n = 0
+    for f in repo.module(MOF).all_funcs():
+        inits = {}
+        for a in walk_no_nested(f.node):
+            if isinstance(a, ast.Assign) and len(a.targets) == 1 and \
+                    isinstance(a.targets[0], ast.Subscript) and \
+                    isinstance(a.targets[0].value, ast.Attribute) and \
+                    a.targets[0].value.attr in CACHES and \
+                    isinstance(a.value, (ast.List, ast.Dict, ast.Call)) and \
+                    not (isinstance(a.value, ast.List) and a.value.elts):
+                inits.setdefault(norm(a.targets[0].slice), {})[
+                    a.targets[0].value.attr] = a
+        for key, got in sorted(inits.items()):
+            n += 1
+            r.sites += 1
+            r.functions.add(f.fq)
+            missing = [c for c in CACHES if c not in got]
+            r.ob(not missing, '%s|[%s]' % (f.qualname, key))
+            for c in missing:
+                a = list(got.values())[0]
+                rep.finding(r, f.qualname, norm(a, 60), 'cache-not-set-up',
+                            MOF, a.lineno,
+                            'parser.%s[%s] is initialised here but parser.%s'
+                            '[%s] is not: the actions subscript both, so the '
+                            'first use for this namespace raises KeyError '
+                            'out of compile_string()'
+                            % (list(got)[0], key, c, key))
+    if n < 3:
+        raise AnalysisError('C09.R16: only %d cache initialisation sites'
+                            % n)
